@@ -76,9 +76,9 @@ package inputrc
 //@ func decodeKey
 //@   props C12 C01
 //@   terminates
-//@   requires 0 <= pos && end <= len(seq)
+//@   requires 0 <= pos && pos <= end && end <= len(seq)
 //@   pure
-//@   ensures result2 == nil ==> result1 >= pos && (pos <= end ==> result1 <= end)
+//@   ensures result2 == nil ==> result1 >= pos && result1 <= end
 //@   loop 1 invariant pos >= pos$0 && (pos$0 <= end ==> pos <= end) && (pos$0 >= end ==> pos == pos$0)
 //@   loop 1 decreases end - pos
 //@   loop 2 invariant idx == -1 || (0 <= idx && idx + 1 <= len(val))
@@ -151,14 +151,42 @@ package inputrc
 //@ func New
 //@   props C12
 //@   terminates
+//@   requires all(k, 0, len(opts), opts[k] != nil)
+//@   assigns nothing
+//@   ensures fresh(result)
+
+//@ func Parse
+//@   props C12
+//@   terminates
+//@   recursion_assumed $include nesting is bounded by maxIncludeDepth (do/post:include-capped is proved); that the nested parser's depth is p.depth+1 is read off New/withDepth, not proved
+//@   requires h != nil && all(k, 0, len(opts), opts[k] != nil)
+//@   assigns nbind(h), lastkeymap(h), lastseq(h), lastaction(h), lastmacro(h), nset(h), lastsetname(h), ndo(h)
+
+//@ func WithName
+//@   trusted returns a non-nil closure
+//@   assigns nothing
 //@   ensures result != nil
-//@   loop 1 invariant parser != nil
-//@   loop 1 decreases len(opts) - i
+//@ func WithApp
+//@   trusted returns a non-nil closure
+//@   assigns nothing
+//@   ensures result != nil
+//@ func WithTerm
+//@   trusted returns a non-nil closure
+//@   assigns nothing
+//@   ensures result != nil
+//@ func WithMode
+//@   trusted returns a non-nil closure
+//@   assigns nothing
+//@   ensures result != nil
+//@ func withDepth
+//@   trusted returns a non-nil closure
+//@   assigns nothing
+//@   ensures result != nil
 
 //@ func (*Parser).readSymbols
 //@   props C12 C01
 //@   terminates
-//@   requires p != nil && 0 <= pos && end == len(seq)
+//@   requires p != nil && 0 <= pos && pos <= end && end == len(seq)
 //@   pure
 
 //@ func (*Parser).readNext
@@ -166,46 +194,57 @@ package inputrc
 //@   terminates
 //@   requires p != nil && 0 <= pos && pos < end && end == len(seq) && !uspace(seq[pos])
 //@   pure
+//@   loop 1 invariant 0 <= pos && pos <= end
+//@   loop 1 decreases end - pos
 
 //@ func (*Parser).doBind
 //@   props C12 C13
 //@   terminates
 //@   requires pconds(p) && h != nil
 //@   assigns nbind(h), lastkeymap(h), lastseq(h), lastaction(h), lastmacro(h)
-//@   ensures ptop(p) ==> nbind(h) == old(nbind(h)) + 1 && lastkeymap(h) == p.keymap && lastseq(h) == sequence && lastaction(h) == action && lastmacro(h) == macro
-//@   ensures !ptop(p) ==> nbind(h) == old(nbind(h))
+//@   ensures [bind-iff-active] ptop(p) ==> nbind(h) == old(nbind(h)) + 1 && lastkeymap(h) == p.keymap && lastseq(h) == sequence && lastaction(h) == action && lastmacro(h) == macro
+//@   ensures [bind-iff-active] !ptop(p) ==> nbind(h) == old(nbind(h))
 
 //@ func (*Parser).doSet
 //@   props C12 C13
 //@   terminates
 //@   requires pconds(p) && handler != nil
 //@   assigns p.keymap, nset(handler), lastsetname(handler)
-//@   ensures !ptop(p) ==> nset(handler) == old(nset(handler)) && p.keymap == old(p.keymap)
-//@   ensures ptop(p) && name == "keymap" && !p.strict ==> p.keymap == value && nset(handler) == old(nset(handler))
-//@   ensures name != "keymap" ==> p.keymap == old(p.keymap)
-//@   ensures ptop(p) && name != "keymap" && name != "editing-mode" && result == nil ==> nset(handler) == old(nset(handler)) + 1 && lastsetname(handler) == name
+//@   ensures [set-inactive] !ptop(p) ==> nset(handler) == old(nset(handler)) && p.keymap == old(p.keymap)
+//@   ensures [set-keymap] ptop(p) && name == "keymap" && !p.strict ==> p.keymap == value && nset(handler) == old(nset(handler))
+//@   ensures [set-keymap] name != "keymap" ==> p.keymap == old(p.keymap)
+//@   ensures [set-var] ptop(p) && name != "keymap" && name != "editing-mode" && result == nil ==> nset(handler) == old(nset(handler)) + 1 && lastsetname(handler) == name
 
 //@ func (*Parser).do
 //@   props C12 C13
 //@   terminates
+//@   recursion_assumed $include nesting is bounded by maxIncludeDepth (post:include-capped is proved); that the nested parser's depth is p.depth+1 is read off New/withDepth, not proved
 //@   requires pconds(p) && handler != nil
-//@   ensures pconds(p)
+//@   assigns p.conds, nbind(handler), lastkeymap(handler), lastseq(handler), lastaction(handler), lastmacro(handler), nset(handler), lastsetname(handler), ndo(handler)
+//@   ensures [conds-nonempty] p != nil && len(p.conds) >= 1
+//@   ensures @C13 [conds-inv] pconds(p)
 //@   ensures @C13 [if-push] keyword == "$if" ==> len(p.conds) == old(len(p.conds)) + 1 && p.conds[:old(len(p.conds))] == old(p.conds) && (ptop(p) ==> old(ptop(p)))
 //@   ensures @C13 [else-flip] keyword == "$else" && result == nil ==> len(p.conds) == old(len(p.conds)) && len(p.conds) >= 2 && p.conds[:len(p.conds) - 1] == old(p.conds)[:len(p.conds) - 1] && (ptop(p) <==> (!old(ptop(p)) && p.conds[len(p.conds) - 2]))
 //@   ensures @C13 [endif-pop] keyword == "$endif" && result == nil ==> len(p.conds) == old(len(p.conds)) - 1 && p.conds == old(p.conds)[:len(p.conds)]
 //@   ensures @C13 [error-noop] (keyword == "$else" || keyword == "$endif") && result != nil ==> p.conds == old(p.conds)
-//@   ensures @C13 [inactive-noop] keyword != "$if" && keyword != "$else" && keyword != "$endif" ==> p.conds == old(p.conds)
+//@   ensures @C13 [other-noop] keyword != "$if" && keyword != "$else" && keyword != "$endif" ==> p.conds == old(p.conds)
 //@   ensures @C13 [inactive-do] keyword != "$if" && keyword != "$else" && keyword != "$endif" && keyword != "$include" && !old(ptop(p)) ==> ndo(handler) == old(ndo(handler))
+//@   ensures @C13 [inactive-include] keyword == "$include" && !old(ptop(p)) ==> nbind(handler) == old(nbind(handler)) && nset(handler) == old(nset(handler)) && ndo(handler) == old(ndo(handler))
+//@   ensures @C12 [include-capped] keyword == "$include" && old(ptop(p)) && p.depth >= maxIncludeDepth ==> result != nil
 
 //@ func (*Parser).next
 //@   props C12 C13
 //@   terminates
+//@   recursion_assumed see (*Parser).do
 //@   requires pconds(p) && handler != nil && 0 <= pos && pos < end && end == len(seq) && !uspace(seq[pos])
-//@   ensures pconds(p)
+//@   assigns p.conds, p.keymap, nbind(handler), lastkeymap(handler), lastseq(handler), lastaction(handler), lastmacro(handler), nset(handler), lastsetname(handler), ndo(handler)
+//@   ensures [conds-inv] pconds(p)
 
 //@ func (*Parser).Parse
 //@   props C12
 //@   terminates
+//@   recursion_assumed see (*Parser).do
 //@   requires p != nil && handler != nil
+//@   assigns p.keymap, p.line, p.conds, p.errs, nbind(handler), lastkeymap(handler), lastseq(handler), lastaction(handler), lastmacro(handler), nset(handler), lastsetname(handler), ndo(handler)
 //@   loop 1 invariant pconds(p) && scanner != nil && scanleft(scanner) >= 0
 //@   loop 1 decreases scanleft(scanner)
